@@ -33,6 +33,10 @@ type ChecksumMismatch struct {
 // ComputeChecksum computes the internet checksum as defined in RFC1071. The
 // passed-in csum is any initial checksum data that's already been computed.
 func ComputeChecksum(data []byte, csum uint32) uint32 {
+	// The sum is accumulated in 64 bits and the carries out of the low 32 bits
+	// are folded back in at the end (end-around carry), so that inputs longer
+	// than ~128 KiB (e.g. IPv6 jumbograms) cannot overflow the accumulator.
+	sum := uint64(csum)
 	// to handle odd lengths, we loop to length - 1, incrementing by 2, then
 	// handle the last byte specifically by checking against the original
 	// length.
@@ -40,13 +44,16 @@ func ComputeChecksum(data []byte, csum uint32) uint32 {
 	for i := 0; i < length; i += 2 {
 		// For our test packet, doing this manually is about 25% faster
 		// (740 ns vs. 1000ns) than doing it by calling binary.BigEndian.Uint16.
-		csum += uint32(data[i]) << 8
-		csum += uint32(data[i+1])
+		sum += uint64(data[i]) << 8
+		sum += uint64(data[i+1])
 	}
 	if len(data)%2 == 1 {
-		csum += uint32(data[length]) << 8
+		sum += uint64(data[length]) << 8
 	}
-	return csum
+	for sum > 0xffffffff {
+		sum = (sum >> 32) + (sum & 0xffffffff)
+	}
+	return uint32(sum)
 }
 
 // FoldChecksum folds a 32 bit checksum as defined in RFC1071.
